@@ -111,6 +111,7 @@ def new_interp(ctx, contract_obj):
     it.stubs.update(contract_obj.stubs(it) or {})
     it.loop_cuts.update(getattr(contract_obj, "loop_cuts", {}) or {})
     it.loop_specs.update(getattr(contract_obj, "loop_specs", {}) or {})
+    it.frozen_time = bool(getattr(contract_obj, "frozen_time", False))
     return it
 
 
@@ -142,11 +143,30 @@ def eval_clauses(contract_obj, s, extra_regions=None):
     return out
 
 
-def discharge(pc, goal, timeout_ms, stats, use_cvc5=True, both=False):
-    """prove pc => goal. -> (status, model|None, backend).  status in proved/refuted/unknown"""
+def discharge(pc, goal, timeout_ms, stats, use_cvc5=True, both=False, inc=None):
+    """prove pc => goal. -> (status, model|None, backend).  status in proved/refuted/unknown
+    `inc`: the path's incremental solver (pc already asserted): tried first with a short budget, because creating a
+    fresh solver per obligation dominates the run time for the many easy obligations"""
     if goal is True:
         return "proved", None, "syntactic"
     neg = z3.BoolVal(True) if goal is False else z3.Not(goal.t)
+    if inc is not None and not both and os.environ.get("PYVC_INC") == "1":     # measured slower for bit-vector goals: off
+        t0 = time.time()
+        inc.push()
+        try:
+            inc.set("timeout", 2000)
+            inc.add(neg)
+            r = inc.check()
+            m = inc.model() if r == z3.sat else None
+        finally:
+            inc.pop()
+            inc.set("timeout", 5000)
+        stats.solver_s += time.time() - t0
+        stats.queries = getattr(stats, "queries", 0) + 1
+        if r == z3.unsat:
+            return "proved", None, "z3-inc"
+        if r == z3.sat:
+            return "refuted", m, "z3-inc"
     s = z3.Solver()
     s.set("timeout", timeout_ms)
     s.set("random_seed", 1)
@@ -211,7 +231,7 @@ def run_case(cid, case_id, tier="quick", known_regions=None, seed=0):
     c = REGISTRY[cid]
     case = c.cases[case_id] if isinstance(c.cases, dict) else case_id
     timeout = 20000 if tier == "quick" else 90000
-    budget_s = getattr(c, "budget_s", 150 if tier == "quick" else 1200)
+    budget_s = getattr(c, "budget_s", 300 if tier == "quick" else 1800)
     both = tier == "thorough"
     stats = Stats()
     stats.queries = 0
@@ -250,7 +270,7 @@ def run_case(cid, case_id, tier="quick", known_regions=None, seed=0):
                 res["sample_pre"] = sample_model(ctx)
             # exactness of the arithmetic model on this path
             if ctx.exact and res["exact"] == "proved":
-                st, m, be = discharge(ctx.pc, V.mk_bool(z3.And(*ctx.exact)), timeout, stats)
+                st, m, be = discharge(ctx.pc, V.mk_bool(z3.And(*ctx.exact)), timeout, stats, inc=ctx.solver)
                 if st != "proved":
                     res["exact"] = "failed"
                     res["exact_detail"] = {"decisions": dec_str(ctx), "status": st,
@@ -262,7 +282,7 @@ def run_case(cid, case_id, tier="quick", known_regions=None, seed=0):
                     goal = Or(*(regions[name] + [goal]))
                     if not isinstance(goal, (bool, SBool)):
                         goal = truth_val(goal)
-                st, m, be = discharge(ctx.pc, goal, timeout, stats, both=both)
+                st, m, be = discharge(ctx.pc, goal, timeout, stats, both=both, inc=ctx.solver)
                 res["by_backend"][be] = res["by_backend"].get(be, 0) + 1
                 if st == "proved":
                     continue
